@@ -358,6 +358,7 @@ func runTemplateMethods(w *World, e *Exec, h *tmplHooks) []*tTrace {
 		st.Assume(BVCmp("bvslt", p0, BV64(1<<40)))
 		setPos(st, cv.One(), p0)
 		st.aux = &tAcc{}
+		e.initFacts(st, fn, e.entryEnv(st, fn, []*Value{cv, nv}, nil))
 		method := curMethod
 		e.call(st, fn, []*Value{cv, nv}, nil, 0, nil,
 			func(st *State, _ []*Value) {
